@@ -211,3 +211,29 @@ func init() {
 	})
 	RegisterOp("sp", func(a []string) string { return ObsString(RunScript(ParseSteps(a))) })
 }
+
+// RunScriptWall is RunScript with a caller-chosen bound on the wall-clock time of the whole script
+// (C14 places clock steps a few milliseconds from the 5 s / 60 s limits).  ok = false when no
+// attempt stayed within the bound.
+func RunScriptWall(st []Step, maxWall time.Duration) (out []StreamObs, ok bool) {
+	for attempt := 0; attempt < 50; attempt++ {
+		out = out[:0]
+		v := service.NewVerifParser()
+		t0 := time.Now()
+		for _, s := range st {
+			if s.IsAge {
+				v.Age(time.Duration(s.Age) * time.Millisecond)
+				continue
+			}
+			o := streamCall(v, s.Data, false)
+			out = append(out, o)
+			if o.Err == "panic" {
+				break
+			}
+		}
+		if time.Since(t0) < maxWall {
+			return out, true
+		}
+	}
+	return out, false
+}
